@@ -928,7 +928,9 @@ func (p *printer) expr1(expr ast.Expr, prec1, depth int) {
 		} else {
 			wasIndented = p.possibleSelectorExpr(x.Fun, token.HighestPrec, depth)
 		}
-		if x.NoParenEnd != token.NoPos {
+		// a command-style call without arguments (`f ()`) would print as the bare callee
+		isCmd := x.NoParenEnd != token.NoPos && len(x.Args) > 0
+		if isCmd {
 			p.print(blank)
 			depth++
 		} else {
@@ -943,7 +945,7 @@ func (p *printer) expr1(expr ast.Expr, prec1, depth int) {
 		} else {
 			p.exprList(x.Lparen, x.Args, depth, commaTerm, x.Rparen, false)
 		}
-		if x.NoParenEnd == token.NoPos {
+		if !isCmd {
 			p.print(x.Rparen, token.RPAREN)
 		}
 		if wasIndented {
